@@ -1768,14 +1768,12 @@ class NodeRequire:
             if environment.isDefined(modulespec):
                 val = environment.get(modulespec, self.pos)
                 if not val.isObject() or not val.isModule:
-                    if not val.isString():
-                        raise CklRuntimeError(
-                            ValueString("ERROR"),
-                            "Expected string or identifier "
-                            "modulespec but got " + val.type(),
-                            self.pos,
-                        )
-                    modulespec = val.value
+                    # a string names the module; any other value that
+                    # happens to be bound to the module's name (for
+                    # example a symbol the module itself exports) does
+                    # not stand in the way of requiring the module
+                    if val.isString():
+                        modulespec = val.value
         else:
             modulespec = self.modulespec.evaluate(environment)
             if not modulespec.isString():
